@@ -70,6 +70,10 @@ func c17Answers() map[string]answer {
 		"mixed":        {Kind: "ok", Key: "garbage line\n" + l[2] + "\n# comment\n" + l[1] + "\nmore garbage"},
 		"block":        {Kind: "block", Block: 20 * time.Second},
 	}
+	// every gRPC status code an endpoint can answer with
+	for code := codes.Code(1); code <= codes.Unauthenticated; code++ {
+		m[fmt.Sprintf("status-%d", int(code))] = answer{Kind: "status", Code: code}
+	}
 	return m
 }
 
@@ -360,7 +364,13 @@ func checkC17(c *ev.Ctx) {
 		}
 	}
 	rec(nil)
-	// deadline answers in one position per vector
+	// every status code in the first or second position, followed by an endpoint that signs: failing over does not depend
+	// on WHY an endpoint failed
+	for code := 1; code <= 16; code++ {
+		st := fmt.Sprintf("status-%d", code)
+		vecs = append(vecs, []string{st}, []string{st, "ok1"}, []string{"unavailable", st, "ok3"}, []string{st, st})
+	}
+	// every gRPC status code 1..16 in the first / second position before an endpoint that signs; deadline answers in one position per vector
 	for pos := 0; pos < 3; pos++ {
 		v := []string{"unavailable", "unavailable", "ok1"}
 		v[pos] = "block"
